@@ -223,7 +223,15 @@ def run(ctx):
         kr, kc = rng.randint(12, 24), rng.randint(12, 24)
         fr_, fc_ = rng.choice((0.0, 0.3, -0.3)), rng.choice((0.3, -0.3, 0.2))
         du_ = (lam_ * z_ / ((kr + fr_) * dxx), lam_ * z_ / ((kc + fc_) * dxx))          # 1/alpha = kr + fr, kc + fc  (never a half)
-        w_ = lentil.Wavefront(lam_) * lentil.Pupil(amplitude=amp_, pixelscale=dxx, focal_length=z_)
+        dxp = dxx
+        if rng.random() < 0.3:
+            # slightly anamorphic PUPIL sampling with one output pixel scale: both axes may well round to the SAME grid and still
+            # imply two wavelengths (K dx_r du / z  and  K dx_c du / z)
+            kc = kr
+            dxp = (dxx, dxx * 1.004)
+            du_ = (lam_ * z_ / ((kr + 0.2) * dxx),) * 2
+            fr_, fc_ = 0.2, (kr + 0.2) / 1.004 - kr
+        w_ = lentil.Wavefront(lam_) * lentil.Pupil(amplitude=amp_, pixelscale=dxp, focal_length=z_)
         nan_ += 1
         ctx.case(('aniso', m_, n_, kr, kc, fr_, fc_))
         try:
@@ -235,7 +243,8 @@ def run(ctx):
         except Exception as ex:
             ctx.violation({'kind': 'fft-vs-dft-at-reported-wavelength-' + type(ex).__name__}, {'error': repr(ex)[:200]}, case=None)
             continue
-        lam_axes = (kr * dxx * du_[0] / z_, kc * dxx * du_[1] / z_)
+        dxa = dxp if isinstance(dxp, tuple) else (dxp, dxp)
+        lam_axes = (int(rf2.shape[0]) * dxa[0] * du_[0] / z_, int(rf2.shape[1]) * dxa[1] * du_[1] / z_)
         same = abs(lam_axes[0] - lam_axes[1]) <= 1e-12 * lam_
         if diff > 1e-9:
             ctx.violation({'kind': 'fft-vs-dft-at-reported-wavelength', 'axes_imply_different_wavelengths': not same},
